@@ -395,4 +395,93 @@ print(json.dumps({"cases": cases, "bad": bad[:6]}))
             'bound': '%d random histories of 4..14 writes, every key of the universe read back, seed %d' % (n, ctx['seed'] + 6)}
 
 
-BOUNDED = [bounded_repository_histories]
+def bounded_install_frontends(ctx):
+    """Bounded stand-in (NOT a proof) for the ADF11 install_* front-ends named in the statement: an independent writer of the published
+    ADF11 layout produces scd/acd/ccd/plt/prb/prc files for helium and neon (random grid sizes, one block per charge state); each is
+    installed into a fresh temporary repository through its install_adf11* function (thermal CX interleaved with a direct
+    update_thermal_cx_rates of one key) and EVERY charge from -1 to Z+1 is read back: block Z1=k must be found under the charge of the
+    documented convention (k-1 for scd/plt, k otherwise) with the file's numbers after unit conversion, every other charge raises
+    RuntimeError, and nothing appears under ~/.cherab (HOME redirected)."""
+    from replaylib.native import run_native
+    n = 2 if ctx['tier'] == 'quick' else 12
+    code = '''
+import os, random, tempfile, shutil, contextlib, io
+import numpy as np
+home = tempfile.mkdtemp(prefix="verif_c06_home_"); os.environ["HOME"] = home
+from cherab.core.atomic import neon, hydrogen, helium
+from cherab.openadas import repository as R
+from cherab.openadas import install as I
+rnd = random.Random(%d)
+bad = []; cases = 0
+def fmt8(vals):
+    return "".join("".join("%%10.5f" %% v for v in vals[i:i + 8]) + "\\n" for i in range(0, len(vals), 8))
+def write_adf11(path, name, z0, nne, nte, tabs, ne, te):
+    txt = "%%5d%%5d%%5d%%5d%%5d     /%%-19s/GCR PROJECT\\n" %% (z0, nne, nte, 1, len(tabs), name.upper())
+    txt += "-" * 80 + "\\n" + fmt8(ne) + fmt8(te)
+    for z in range(len(tabs)):
+        txt += "-" * 20 + "/ IPRT= 1  / IGRD= 1  /--------/ Z1= %%d   / DATE= 01/01/00\\n" %% (z + 1)
+        txt += fmt8([v for row in tabs[z] for v in row])
+    txt += "C" + "-" * 79 + "\\nC\\n"
+    open(path, "w").write(txt)
+def expect(tab, ne, te):
+    return {"ne": 10 ** np.round(np.array(ne), 5) * 1e6, "te": 10 ** np.round(np.array(te), 5), "rate": 10 ** np.round(np.array(tab), 5).T * 1e-6}
+def same(got, want):
+    return all(np.asarray(got[k]).shape == want[k].shape and np.allclose(np.asarray(got[k]), want[k], rtol=1e-9, atol=0) for k in want)
+def rd(f, *a):
+    try:
+        return f(*a)
+    except RuntimeError:
+        return None
+# file type -> (installer, reader(charge), offset: block Z1=k is stored under charge k + offset)
+KINDS = {
+    "scd": (lambda el, fp, rp, ap: I.install_adf11scd(el, fp, repository_path=rp, adas_path=ap), lambda el, q, rp: rd(R.get_ionisation_rate, el, q, rp), -1),
+    "acd": (lambda el, fp, rp, ap: I.install_adf11acd(el, fp, repository_path=rp, adas_path=ap), lambda el, q, rp: rd(R.get_recombination_rate, el, q, rp), 0),
+    "ccd": (lambda el, fp, rp, ap: I.install_adf11ccd(hydrogen, 0, el, fp, repository_path=rp, adas_path=ap), lambda el, q, rp: rd(R.get_thermal_cx_rate, hydrogen, 0, el, q, rp), 0),
+    "plt": (lambda el, fp, rp, ap: I.install_adf11plt(el, fp, repository_path=rp, adas_path=ap), lambda el, q, rp: rd(R.get_line_radiated_power_rate, el, q, rp), -1),
+    "prb": (lambda el, fp, rp, ap: I.install_adf11prb(el, fp, repository_path=rp, adas_path=ap), lambda el, q, rp: rd(R.get_continuum_radiated_power_rate, el, q, rp), 0),
+    "prc": (lambda el, fp, rp, ap: I.install_adf11prc(el, fp, repository_path=rp, adas_path=ap), lambda el, q, rp: rd(R.get_cx_radiated_power_rate, el, q, rp), 0),
+}
+for trial in range(%d):
+    for el, z0 in ((helium, 2), (neon, 10)):
+        rp = tempfile.mkdtemp(prefix="verif_c06_repo_"); ap = tempfile.mkdtemp(prefix="verif_c06_adas_")
+        try:
+            nne, nte = rnd.randint(2, 11), rnd.randint(2, 13)
+            ne = sorted(rnd.uniform(7, 15) for _ in range(nne)); te = sorted(rnd.uniform(-1, 4) for _ in range(nte))
+            for kind, (inst, read, off) in KINDS.items():
+                tabs = [[[rnd.uniform(-20, -5) for _ in range(nne)] for _ in range(nte)] for _ in range(z0)]
+                write_adf11(os.path.join(ap, kind + ".dat"), el.name, z0, nne, nte, tabs, ne, te)
+                with contextlib.redirect_stdout(io.StringIO()):
+                    inst(el, kind + ".dat", rp, ap)
+                cases += 1
+                if kind == "ccd" and z0 >= 2:
+                    # interleaving with a direct write: update charge z0 afterwards; every other charge keeps the file's tables
+                    t2 = [[rnd.uniform(-20, -5) for _ in range(nne)] for _ in range(nte)]
+                    e2 = expect(t2, ne, te)
+                    R.update_thermal_cx_rates({hydrogen: {0: {el: {z0: {"ne": e2["ne"], "te": e2["te"], "rates": e2["rate"]}}}}}, repository_path=rp)
+                    tabs[z0 - 1] = t2
+                for q in range(-1, z0 + 2):
+                    k = q - off          # block Z1 = k
+                    got = read(el, q, rp)
+                    if 1 <= k <= z0:
+                        if got is None or not same(got, expect(tabs[k - 1], ne, te)):
+                            bad.append({"file_type": kind, "element": el.name, "charge_read": q, "expected_block_Z1": k,
+                                        "observed": "no such key" if got is None else "other tables (first rate %%.6e, block's first rate %%.6e)" %% (np.asarray(got["rate"]).flat[0], expect(tabs[k - 1], ne, te)["rate"].flat[0])})
+                    elif got is not None:
+                        bad.append({"file_type": kind, "element": el.name, "charge_read": q, "expected": "RuntimeError (no block of the file maps to this charge)", "observed": "tables returned"})
+            stray = [os.path.join(dp, f) for dp, _, fs in os.walk(os.path.join(home, ".cherab")) for f in fs]
+            if stray:
+                bad.append({"stray_files_under_home": stray[:3]})
+        except Exception as e:
+            bad.append({"error": repr(e)[:200], "element": el.name})
+        finally:
+            shutil.rmtree(rp, ignore_errors=True); shutil.rmtree(ap, ignore_errors=True)
+shutil.rmtree(home, ignore_errors=True)
+print(json.dumps({"cases": cases, "bad": bad[:5], "nbad": len(bad)}))
+''' % (ctx['seed'] + 66, n)
+    out = run_native(ctx, code, timeout=900)
+    return {'name': 'ADF11 install front-ends vs an independent writer and the charge convention (BOUNDED stand-in, not counted as proved)',
+            'ok': bool(out) and out.get('bad') == [], 'detail': out, 'covers': ['repository'],
+            'bound': '%d random files per type and element (He, Ne), six ADF11 types, seed %d' % (n, ctx['seed'] + 66)}
+
+
+BOUNDED = [bounded_repository_histories, bounded_install_frontends]
